@@ -165,7 +165,8 @@ def main(argv):
     t0 = time.time()
     from pyvc import harness
     mods = load_contracts(prop)
-    proofs = [p for p in harness.PROOFS.values() if p.prop == prop and (only is None or p.name == only)]
+    proofs = [p for p in harness.PROOFS.values() if p.prop == prop and (only is None or p.name == only)
+              and (tier == "thorough" or not p.thorough_only or only is not None)]
     if not proofs:
         print("no proof harness for", prop)
         return 3
